@@ -657,4 +657,201 @@ Proof.
   - now apply sinv_advance.
 Qed.
 
+(* ---- instructions that do not start an operation ---- *)
+Lemma sinv_instr_generic s m i k l s' (m' : @romap A) k' (extra : list (@revent A)) :
+  SInv (SCfg s m (i :: k) l) ->
+  lops (extra ++ l) = lops l ->
+  same_but_obs s s' -> NoDup (r_observers s') ->
+  (forall o, In o (r_observers s') -> m' o <> None) ->
+  (forall o, m' o = None ->
+     m o = None /\ lview o (extra ++ l) = lview o l /\
+     sinflight o k' = sinflight o (i :: k) /\ spend o k' = spend o (i :: k)) ->
+  (forall o os', m' o = Some os' -> exists os, m o = Some os /\
+     forall X', lx l o = X' ++ spend o (i :: k) ->
+       obs_ok (rg_live (lg l)) (r_observers s) (lview o l) (sinflight o (i :: k)) os o X' ->
+       pend_ok os (spend o (i :: k)) ->
+       exists X'', lx l o = X'' ++ spend o k' /\
+         obs_ok (rg_live (lg l)) (r_observers s') (lview o (extra ++ l)) (sinflight o k') os' o X'' /\
+         pend_ok os' (spend o k')) ->
+  sclean k' ->
+  (rg_live (lg l) = true -> forall o, spend o k' = []) ->
+  SInv (SCfg s' m' k' (extra ++ l)).
+Proof.
+  intros I Hops Hcore Hnd Hdom Hnone Hsome Hclean Hnp.
+  assert (Hlg : lg (extra ++ l) = lg l) by (unfold lg; now rewrite Hops).
+  assert (Hx : forall o, lx (extra ++ l) o = lx l o) by (intros o; unfold ReplayTreeFacts.lx; now rewrite Hops).
+  constructor; cbn [sc_st sc_obs sc_k sc_rlog].
+  - rewrite Hlg. exact (st_agree_same b w s s' _ Hcore (sinv_st_l _ _ _ _ I)).
+  - exact Hnd.
+  - exact Hdom.
+  - intros o Hm. destruct (Hnone o Hm) as (Hm0 & Hv & Hi & Hp).
+    destruct (sinv_none_l _ _ _ _ o I Hm0) as (H1 & H2 & H3 & H4).
+    rewrite Hops, Hv, Hi, Hp. auto.
+  - intros o os' Hm. destruct (Hsome o os' Hm) as [os [Hm0 Himp]].
+    destruct (sinv_some_l _ _ _ _ o os I Hm0) as [H1 [X' (EX & Hok & Hp)]].
+    rewrite Hops, Hx, Hlg. split; [exact H1|]. exact (Himp X' EX Hok Hp).
+  - exact Hclean.
+  - rewrite Hlg. exact Hnp.
+Qed.
+
+(* the common case: only observer o's table entry changes, the continuation keeps
+   its pending deliveries and terminals *)
+Lemma sinv_instr_one s m i k l s' k' o os os' :
+  SInv (SCfg s m (i :: k) l) ->
+  ksame (i :: k) k' -> sclean k' ->
+  same_but_obs s s' -> NoDup (r_observers s') ->
+  (forall x, In x (r_observers s') -> In x (r_observers s)) ->
+  m o = Some os ->
+  (forall X', obs_ok (rg_live (lg l)) (r_observers s) (lview o l) (sinflight o (i :: k)) os o X' ->
+              pend_ok os (spend o (i :: k)) ->
+              obs_ok (rg_live (lg l)) (r_observers s') (lview o l) (sinflight o (i :: k)) os' o X' /\
+              pend_ok os' (spend o (i :: k))) ->
+  (forall o2 os2 X', o2 <> o -> m o2 = Some os2 ->
+     obs_ok (rg_live (lg l)) (r_observers s) (lview o2 l) (sinflight o2 (i :: k)) os2 o2 X' ->
+     obs_ok (rg_live (lg l)) (r_observers s') (lview o2 l) (sinflight o2 (i :: k)) os2 o2 X') ->
+  SInv (SCfg s' (rupd m o os') k' l).
+Proof.
+  intros I Hk Hclean Hcore Hnd Hsub Hm Hself Hother.
+  apply (sinv_instr_generic s m i k l s' _ k' [] I); try reflexivity; try assumption.
+  - intros x Hi. unfold rupd. destruct (Nat.eqb x o); [discriminate|]. exact (sinv_dom _ I x (Hsub x Hi)).
+  - intros x. unfold rupd. destruct (Nat.eqb x o); [discriminate|]. intros Hx.
+    destruct (Hk x) as [K1 K2]. auto.
+  - intros x osx. destruct (Hk x) as [K1 K2]. rewrite K1, K2. cbn [app]. unfold rupd.
+    destruct (Nat.eqb x o) eqn:E.
+    + apply Nat.eqb_eq in E. subst x. intros [= <-]. exists os. split; [exact Hm|].
+      intros X' EX Hok Hp. exists X'. split; [exact EX|]. exact (Hself X' Hok Hp).
+    + apply Nat.eqb_neq in E. intros Hx. exists osx. split; [exact Hx|].
+      intros X' EX Hok Hp. exists X'. split; [exact EX|]. split; [|exact Hp]. exact (Hother x osx X' E Hx Hok).
+  - intros El x. destruct (Hk x) as [_ K2]. rewrite K2. exact (sinv_nopend _ I El x).
+Qed.
+
+(* nothing changes but the continuation *)
+Lemma sinv_instr_skip s m i k l s' k' :
+  SInv (SCfg s m (i :: k) l) -> ksame (i :: k) k' -> sclean k' ->
+  same_but_obs s s' -> r_observers s' = r_observers s ->
+  SInv (SCfg s' m k' l).
+Proof.
+  intros I Hk Hclean Hcore Hobs.
+  apply (sinv_instr_generic s m i k l s' m k' [] I); try reflexivity; try assumption.
+  - rewrite Hobs. exact (sinv_nodup _ I).
+  - rewrite Hobs. exact (sinv_dom _ I).
+  - intros x Hx. destruct (Hk x) as [K1 K2]. auto.
+  - intros x osx Hx. destruct (Hk x) as [K1 K2]. rewrite K1, K2, Hobs. cbn [app]. exists osx. split; [exact Hx|].
+    intros X' EX Hok Hp. exists X'. auto.
+  - intros El x. destruct (Hk x) as [_ K2]. rewrite K2. exact (sinv_nopend _ I El x).
+Qed.
+
+Lemma sclean_drain_if top (i : @sinstr A) k :
+  sclean (i :: k) -> is_top i = top -> sclean (drain_if sync top k).
+Proof.
+  intros Hc Hi. unfold drain_if. destruct (inl sync top) eqn:E; [|exact (sclean_tail _ _ Hc)].
+  apply inl_top in E. rewrite E in Hi. split; [intros _; exact (sclean_top _ _ Hc Hi)|exact (sclean_tail _ _ Hc)].
+Qed.
+
+Lemma sinv_resched o s m k l :
+  SInv (SCfg s m (SIResched o :: k) l) -> SInv (sstep (SCfg s m (SIResched o :: k) l)).
+Proof.
+  intros I. unfold ReplaySched.sstep. cbn [sc_k sc_st sc_obs sc_rlog].
+  apply (sinv_instr_skip s m (SIResched o) k l); [exact I|intros x; split; reflexivity|
+    exact (sclean_tail _ _ (sinv_clean _ I))|repeat split|reflexivity].
+Qed.
+
+Lemma sinv_handle o s m k l :
+  SInv (SCfg s m (SIHandle o :: k) l) -> SInv (sstep (SCfg s m (SIHandle o :: k) l)).
+Proof.
+  intros I. unfold ReplaySched.sstep. cbn [sc_k sc_st sc_obs sc_rlog].
+  destruct (m o) as [os|] eqn:Hm.
+  - apply (sinv_instr_one s m (SIHandle o) k l s k o os); [exact I|intros x; split; reflexivity|
+      exact (sclean_tail _ _ (sinv_clean _ I))|apply same_but_obs_refl|exact (sinv_nodup _ I)|tauto|exact Hm| |tauto].
+    intros X' Hok Hp. split; [eapply (obs_ok_ext react); [| | |exact Hok]; reflexivity|].
+    eapply pend_ok_ext; [| |exact Hp]; cbn; tauto.
+  - apply (sinv_instr_skip s m (SIHandle o) k l); [exact I|intros x; split; reflexivity|
+      exact (sclean_tail _ _ (sinv_clean _ I))|apply same_but_obs_refl|reflexivity].
+Qed.
+
+Lemma sinv_adofin o s m k l :
+  SInv (SCfg s m (SIAdoFin o :: k) l) -> SInv (sstep (SCfg s m (SIAdoFin o :: k) l)).
+Proof.
+  intros I. unfold ReplaySched.sstep. cbn [sc_k sc_st sc_obs sc_rlog].
+  destruct (m o) as [os|] eqn:Hm.
+  - destruct (rado_dispose_spec s os o) as (Hs & Hcore & Hobs).
+    destruct (rado_dispose s os o) as [s' os']. cbn [fst snd] in *.
+    assert (Hsub : forall x, In x (r_observers s') -> In x (r_observers s)).
+    { intros x. destruct Hobs as [->| ->]; [tauto|apply (In_remove1_weak react)]. }
+    apply (sinv_instr_one s m (SIAdoFin o) k l s' k o os); [exact I|intros x; split; reflexivity|
+      exact (sclean_tail _ _ (sinv_clean _ I))|exact Hcore| |exact Hsub|exact Hm| |].
+    + destruct Hobs as [->| ->]; [exact (sinv_nodup _ I)|apply NoDup_remove1; exact (sinv_nodup _ I)].
+    + intros X' Hok Hp. split; [eapply (obs_ok_stop react); [exact Hs|exact Hok]|].
+      apply pend_ok_stopped; [exact (proj1 Hp)|exact Hs].
+    + intros o2 os2 X' Hne Hm2 Hok. eapply (obs_ok_weaken react); [|exact Hok]. intros El. split; [exact El|].
+      intros Hin. destruct Hobs as [->| ->]; [exact Hin|].
+      apply (In_remove1 o _ o2 (sinv_nodup _ I)). split; assumption.
+  - apply (sinv_instr_skip s m (SIAdoFin o) k l); [exact I|intros x; split; reflexivity|
+      exact (sclean_tail _ _ (sinv_clean _ I))|apply same_but_obs_refl|reflexivity].
+Qed.
+
+Lemma sinv_ensure top o s m k l :
+  SInv (SCfg s m (SIEnsure top o :: k) l) -> SInv (sstep (SCfg s m (SIEnsure top o :: k) l)).
+Proof.
+  intros I. unfold ReplaySched.sstep. cbn [sc_k sc_st sc_obs sc_rlog].
+  destruct (m o) as [os|] eqn:Hm.
+  - pose proof (ensure_active_core o s (r_so os)) as [Hobs Hcore].
+    pose proof (ensure_active_so o s (r_so os)) as [Hq Hst].
+    destruct (ensure_active o s (r_so os)) as [s' so']. cbn [fst snd] in *.
+    apply (sinv_instr_one s m (SIEnsure top o) k l s' _ o os); [exact I| | |exact Hcore| | |exact Hm| |].
+    + intros x. destruct (ksame_drain_if top k x) as [K1 K2]. split; assumption.
+    + apply (sclean_drain_if top (SIEnsure top o)); [exact (sinv_clean _ I)|reflexivity].
+    + rewrite Hobs. exact (sinv_nodup _ I).
+    + rewrite Hobs. tauto.
+    + intros X' Hok Hp. rewrite Hobs. split.
+      * eapply (obs_ok_ext react); [| | |exact Hok]; cbn [set_so ra_stopped r_so]; [reflexivity|exact Hq|exact Hst].
+      * eapply pend_ok_ext; [| |exact Hp]; cbn [set_so ra_stopped r_so]; [tauto|congruence].
+    + intros o2 os2 X' _ _ Hok. rewrite Hobs. exact Hok.
+  - apply (sinv_instr_skip s m (SIEnsure top o) k l); [exact I|intros x; split; reflexivity|
+      exact (sclean_tail _ _ (sinv_clean _ I))|apply same_but_obs_refl|reflexivity].
+Qed.
+
+Lemma spend_onensure_same top o t k : spend o (SIOnEnsure top o t :: k) = t :: spend o k.
+Proof. cbn [spend]. now rewrite Nat.eqb_refl. Qed.
+Lemma spend_onensure_other top o o2 t k : o2 <> o -> spend o2 (SIOnEnsure top o t :: k) = spend o2 k.
+Proof. intros H. cbn [spend]. destruct (Nat.eqb o o2) eqn:E; [apply Nat.eqb_eq in E; congruence|reflexivity]. Qed.
+
+Lemma sinv_onensure top o t s m k l :
+  SInv (SCfg s m (SIOnEnsure top o t :: k) l) -> SInv (sstep (SCfg s m (SIOnEnsure top o t :: k) l)).
+Proof.
+  intros I. unfold ReplaySched.sstep. cbn [sc_k sc_st sc_obs sc_rlog].
+  destruct (m o) as [os|] eqn:Hm.
+  2:{ exfalso. destruct (sinv_none_l _ _ _ _ o I Hm) as (_ & _ & _ & Hp).
+      rewrite spend_onensure_same in Hp. discriminate. }
+  pose proof (ensure_active_core o s (so_on t (r_so os))) as [Hobs Hcore].
+  pose proof (ensure_active_so o s (so_on t (r_so os))) as [Hq Hst].
+  destruct (ensure_active o s (so_on t (r_so os))) as [s' so']. cbn [fst snd] in *.
+  assert (Hk : forall x, sinflight x (drain_if sync top k) = sinflight x k /\
+                         spend x (drain_if sync top k) = spend x k).
+  { intros x. exact (ksame_drain_if top k x). }
+  assert (Hdead : rg_live (lg l) = false).
+  { destruct (rg_live (lg l)) eqn:El; [|reflexivity]. pose proof (sinv_nopend _ I El o) as Hp.
+    cbn [sc_k] in Hp. rewrite spend_onensure_same in Hp. discriminate. }
+  apply (sinv_instr_generic s m (SIOnEnsure top o t) k l s' _ _ [] I); try reflexivity.
+  - exact Hcore.
+  - rewrite Hobs. exact (sinv_nodup _ I).
+  - rewrite Hobs. intros x Hi. unfold rupd. destruct (Nat.eqb x o); [discriminate|]. exact (sinv_dom _ I x Hi).
+  - intros x. unfold rupd. destruct (Nat.eqb x o) eqn:E; [discriminate|]. apply Nat.eqb_neq in E. intros Hx.
+    destruct (Hk x) as [K1 K2]. rewrite K1, K2, (spend_onensure_other top o x t k E). auto.
+  - intros x osx. destruct (Hk x) as [K1 K2]. rewrite K1, K2, Hobs. cbn [app sinflight]. unfold rupd.
+    destruct (Nat.eqb x o) eqn:E.
+    + apply Nat.eqb_eq in E. subst x. intros [= <-]. exists os. split; [exact Hm|].
+      rewrite spend_onensure_same. intros X' EX Hok [Hlen Hps].
+      assert (Hnil : spend o k = []) by (destruct (spend o k); [reflexivity|cbn in Hlen; lia]).
+      exists (X' ++ [t]). split; [rewrite EX, <- app_assoc; reflexivity|]. split; [|rewrite Hnil; apply pend_ok_nil].
+      unfold obs_ok in *. cbn [set_so ra_stopped r_so]. destruct (ra_stopped os) eqn:Era; [now apply prefix_app_r|].
+      destruct Hok as [H1 _]. specialize (Hps ltac:(discriminate) eq_refl).
+      destruct (so_on_queue t _ Hps) as [Q1 _]. rewrite Hq, Q1, Hdead.
+      split; [|discriminate]. rewrite <- H1, <- !app_assoc. reflexivity.
+    + apply Nat.eqb_neq in E. rewrite (spend_onensure_other top o x t k E). intros Hx. exists osx.
+      split; [exact Hx|]. intros X' EX Hok Hp. exists X'. auto.
+  - apply (sclean_drain_if top (SIOnEnsure top o t)); [exact (sinv_clean _ I)|reflexivity].
+  - rewrite Hdead. discriminate.
+Qed.
+
 End SchedA.
